@@ -249,7 +249,7 @@ Lemma flush_nocache s pr : flush s pr false = set_store s (flush_store pr (d_sto
 Proof. reflexivity. Qed.
 
 Lemma write_spec s1 now p l c :
-  DInv s1 -> NoDup (map da l) ->
+  DInv s1 -> NoDup (map da (filter (lv (unix now)) l)) ->
   let r2 := fst (clean now (mkDR p l c true)) in
   let s' := flush s1 r2 false in
   DInv s' /\ frame s1 s' /\ Permutation (daddrs r2) (filter (lv (unix now)) l) /\
@@ -260,7 +260,7 @@ Proof.
   intros HD Hn. cbn zeta. destruct (clean_dirty_spec now p l c) as [Hp [HP [Hs Hc]]].
   set (r2 := fst (clean now (mkDR p l c true))) in *. rewrite flush_nocache. cbn [set_store d_store].
   assert (Hn2 : NoDup (map da (daddrs r2))).
-  { apply (Permutation_NoDup (Permutation_map da (Permutation_sym HP))). now apply nodup_map_filter. }
+  { apply (Permutation_NoDup (Permutation_map da (Permutation_sym HP))). exact Hn. }
   split; [|split; [apply frame_set_store|split; [exact HP|split; [exact Hn2|split]]]].
   - apply (DInv_frame s1); [exact HD|apply frame_set_store|]. cbn [set_store d_store].
     apply SInv_flush; [apply HD|exact Hs|exact Hn2].
